@@ -23,6 +23,13 @@ type workerSite struct {
 	E        *Engine
 	ParentSt *State
 	Ret      Val // what the parent returns on this path
+	// A closure whose body splits into several paths (a helper computing the
+	// worker's row band with a case split) yields one site per path: Group
+	// identifies the RunWorkers call, CaseConds the closure's path conditions.
+	Group     int
+	NCases    int
+	CaseIdx   int
+	CaseConds []*BoolVal
 }
 
 // analyseWorkers interprets parent symbolically and every worker closure it
@@ -34,6 +41,7 @@ func analyseWorkers(p *Program, parent *ssa.Function) ([]workerSite, []Outcome, 
 		return nil, outs, err
 	}
 	var sites []workerSite
+	group := 0
 	for _, o := range outs {
 		if o.Kind != "return" {
 			continue
@@ -64,18 +72,31 @@ func analyseWorkers(p *Program, parent *ssa.Function) ([]workerSite, []Outcome, 
 			args := []Val{e.A.Var("workerNum", fv.Fn.Params[0].Type()), e.A.Var("workerCount", fv.Fn.Params[1].Type())}
 			couts := e.call(st, fv.Fn, args, fv.Bindings, 0)
 			e.GenericLoops = false
-			if len(couts) != 1 || couts[0].Kind != "return" {
-				why := fmt.Sprintf("%d paths", len(couts))
-				for _, co := range couts {
-					if co.Kind != "return" {
-						why = co.Kind + ": " + co.Why + " at " + p.Pos(co.Pos)
-					}
+			group++
+			ws.Group = group
+			bad := ""
+			for _, co := range couts {
+				if co.Kind != "return" {
+					bad = co.Kind + ": " + co.Why + " at " + p.Pos(co.Pos)
 				}
-				ws.Err = "worker closure is not a pair of striped counting loops with per-pixel stores only: " + why
-			} else {
-				ws.Events = couts[0].St.events
 			}
-			sites = append(sites, ws)
+			if bad != "" || len(couts) == 0 || len(couts) > 8 {
+				if bad == "" {
+					bad = fmt.Sprintf("%d paths", len(couts))
+				}
+				ws.Err = "worker closure is not a pair of counting loops with per-pixel stores only: " + bad
+				ws.NCases = 1
+				sites = append(sites, ws)
+				continue
+			}
+			for ci, co := range couts {
+				c := ws
+				c.CaseIdx = ci
+				c.NCases = len(couts)
+				c.Events = co.St.events
+				c.CaseConds = co.St.conds
+				sites = append(sites, c)
+			}
 		}
 	}
 	return sites, outs, nil
